@@ -122,3 +122,5 @@ pub mod distill;
 pub mod linalg;
 pub mod pwl;
 pub mod tree;
+#[cfg(feature = "verif-hooks")]
+pub mod verif_hooks;
